@@ -35,7 +35,7 @@ Init == /\ \E p \in Menu : s = SesOf(p) /\ ops = << <<"point", p.codec, p.k, p.r
 All == 0 .. (s.n - 1)
 
 Recv(e) ==
-    /\ ~done /\ ~s.finished /\ ~s.viaset
+    /\ ~done /\ ~s.finished          \* also after of_set_available_symbols: later arrivals come one by one
     /\ s' = RecvNext(s, e)
     /\ ops' = IF Track THEN Append(ops, <<"recv", e>>) ELSE ops
     /\ UNCHANGED done
@@ -95,7 +95,7 @@ GNext ==
        /\ LET c == RandomElement(1 .. 10)
           IN  IF c = 1 /\ s.rcvd = {} /\ ~s.viaset THEN SetAvail(RandomElement(SUBSET All))
               ELSE IF c = 2 /\ s.rcvd # {} THEN Finish
-              ELSE IF s.viaset THEN Finish
+              ELSE IF s.viaset /\ c <= 5 THEN Finish
               ELSE Recv(RandomElement(All))
 
 GSpec == Init /\ [][GNext]_mvars
